@@ -82,6 +82,10 @@ def search(ctx, budget):
             if oc.nontrivial_polygon(pts) and 0 < t < 1:
                 nontriv += 1
         msg = check_case(pts, t, s)
+        if not msg and i % 4 == 0:
+            # evaluation, subdivision and the derivative describe the segment as it is now (not as it was when first asked)
+            msg = oc.stale_check(pts, i, [("pointAtTime(%r)" % t, lambda g: g.pointAtTime(t)), ("splitAtTime(%r)" % t, lambda g: g.splitAtTime(t)),
+                                          ("derivative()", lambda g: g.derivative() if len(g.points) > 2 else None)])
         if msg:
             viol.append({"what": msg, "input": {"pts": pts, "t": t, "s": s}})
             if len(viol) >= 5:
